@@ -70,6 +70,22 @@ EDGE_SELECTORS += [
     b"/PYGOPHERD-HTTPPROTO-ICONS/text.gif", b"/PYGOPHERD-HTTPPROTO-ICONS/nope.gif", b"/GEMINI-QUERY/f.txt",
 ]
 
+# mail whose headers are well-formed RFC 5322 / RFC 2047 text that a header decoder may choke on: unknown charset,
+# bytes that are invalid in the named charset, broken base64, raw 8-bit, folded and very long subjects, no subject
+_SUBJECTS = [b"=?utf-8?q?Caf=C3=A9?=", b"=?bogus-charset?q?x?=", b"=?utf-8?q?=FF=FE?=", b"=?utf-8?b?!!!notbase64?=", b"=?utf-8?b?Q2Fm?= =?iso-8859-1?q?=E9?=", b"raw \xe9 8-bit",
+             b"folded\n subject\n\tline", b"S" * 5000, b"=?utf-8?x?unknown-encoding?=", b"=??q??=", b"=?utf-8*en?q?lang?=", b"tab\there", b""]
+ENC_MBOX = b"".join(b"From s%d@example Thu Jan  1 00:00:%02d 2004\nFrom: s%d@example\n" % (i, i, i) + (b"Subject: " + sub + b"\n" if sub else b"") + b"\nbody %d\n\n" % i for i, sub in enumerate(_SUBJECTS))
+ENC_MAILDIR = {b"cur": {b"%d:2,S" % i: b"From: s%d@example\n" % i + (b"Subject: " + sub + b"\n" if sub else b"") + b"\nbody %d\n" % i for i, sub in enumerate(_SUBJECTS)}, b"new": {}, b"tmp": {}}
+EDGE_SELECTORS += [b"/enc.mbox", b"/encmd"] + [b"/enc.mbox|/MBOX-MESSAGE/%d" % (i + 1) for i in range(len(_SUBJECTS))] + [b"/encmd|/MAILDIR-MESSAGE/%d" % (i + 1) for i in range(len(_SUBJECTS))]
+
+
+def _spec_a():
+    spec = worlds.standard_spec(full=True)
+    spec[b"enc.mbox"] = ENC_MBOX
+    spec[b"encmd"] = ENC_MAILDIR
+    return spec
+
+
 RAW_LINES = []
 _FIELDS = [b"", b"/f.txt", b"/a", b"+", b"!", b"$", b"+text/plain", b"q", b"0", b"\xe9", b" "]
 for n in (1, 2, 3, 4):
@@ -93,7 +109,12 @@ for l in _HTTPISH:
 _GEM = [b"gemini://", b"gemini://h", b"gemini://h/", b"gemini://h:1965/f.txt", b"gemini://[::1]/f.txt", b"gemini://[::1/",
         b"gemini://u@h/f.txt", b"gemini:///f.txt", b"gemini://h/f.txt?q", b"gemini://h/GEMINI-QUERY/f.txt", b"gemini://h/GEMINI-QUERY/f.txt?q%0d%0a",
         b"gemini://h/GEMINI-QUERY", b"gemini://h/%0d%0a20 text/x", b"gemini://h/x%0ay", b"gemini://h/a?%0d%0a", b"gemini://h/%00", b"gemini://h/a/../f.txt",
-        b"gemini://h/\xff", b"gemini://h/f.txt#frag", b"gemini://h]/", b"gemini://h/;p?q#f", b"gemini:/x", b"gemini://h//", b"gemini://h/ f.txt"]
+        b"gemini://h/\xff", b"gemini://h/f.txt#frag", b"gemini://h]/", b"gemini://h/;p?q#f", b"gemini:/x", b"gemini://h//", b"gemini://h/ f.txt",
+        # every part of the authority a URL parser looks at, well-formed or not
+        b"gemini://h:/f.txt", b"gemini://h:0/f.txt", b"gemini://h:70/f.txt", b"gemini://h:99999/f.txt", b"gemini://h:gemini/f.txt", b"gemini://h:19\xc2\xb265/f.txt", b"gemini://h:-1/f.txt",
+        b"gemini://h:1965:1/f.txt", b"gemini://h: 1965/f.txt", b"gemini://u:pw@h:1965/f.txt", b"gemini://u:pw@h:x/f.txt", b"gemini://[::1]:1965/f.txt", b"gemini://[::1]:x/f.txt", b"gemini://[v1.x]/f.txt",
+        b"gemini://[::1]x/f.txt", b"gemini://h\xc3\xa9.example/f.txt", b"gemini://xn--h-9ia/f.txt", b"gemini://H.EXAMPLE:1965/f.txt", b"gemini://h:1965", b"gemini://h:65536/", b"gemini://h:+70/", b"gemini://h:7_0/",
+        b"gemini://h:\xd9\xa1\xd9\xa9\xd9\xa6\xd9\xa5/f.txt", b"GEMINI://h/f.txt", b"gemini://@/f.txt", b"gemini://:@:/f.txt", b"gemini://h/f.txt?q=1&r=%zz", b"gemini://h/%zz"]
 for g in _GEM:
     RAW_LINES.append(g + b"\r\n")
 _SPARTAN = [b"h / 0", b"h /f.txt 0", b"h /f.txt 3\r\nabc", b"h /f.txt 9\r\nabc", b"h /f.txt 0\r\nabc", b"h /%0d%0a2 x 0", b"h /x%0ay 0",
@@ -148,7 +169,7 @@ _world = {}
 def _get_world(handlers):
     w = _world.get(handlers)
     if w is None:
-        w = rig.World(worlds.standard_spec(full=True), handlers=handlers, tag="c03")
+        w = rig.World(_spec_a(), handlers=handlers, tag="c03")
         _world[handlers] = w
     else:
         rig.reset_lazies()
@@ -210,7 +231,11 @@ MENU_B = [
     # ... and one observer per handler kind
     ("gopher", b"/md"), ("gopherp_dir", b"/md"), ("gopher", b"/md|/MAILDIR-MESSAGE/1"), ("gopher", b"/z.zip/f.txt"), ("gopherp_dir", b"/gm"),
     ("gopher", b"/x.gophermap"), ("gopher", b"/s.sh"), ("gopher", b"/p.pyg"), ("gopher", b"/c.txt.gz"), ("http", b"/noext"),
+    # requests that carry a search string, and the script that shows its whole request environment without one
+    ("gopher", b"/env.sh", b"needle one"), ("http", b"/env.sh", b"needle two"), ("gemini", b"/p.pyg", b"needle three"), ("gopher", b"/env.sh"), ("http", b"/env.sh"),
+    ("sgopher", b"/env.sh"), ("gopher", b"/env.sh|args here"), ("gopher", b"/p.pyg"), ("gopher", b"/f.txt", b"search on a plain file"),
 ]
+ENV_SH = b"#!/bin/sh\necho ENV-SCRIPT \"$@\"\nenv | grep -E '^(SERVER_|REMOTE_|SELECTOR|REQUEST|SEARCHREQUEST|GATEWAY|QUERY|HTTP_|PATH_)' | sort\n"
 
 _DATE = [
     (re.compile(rb"Last-Modified: [^\r\n]*\r\n"), b"Last-Modified: X\r\n"),
@@ -225,8 +250,8 @@ def _norm(out: bytes) -> bytes:
 
 
 def _serve_b(w, i):
-    proto, sel = MENU_B[i]
-    data, tls = rig.request(proto, sel)
+    proto, sel = MENU_B[i][:2]
+    data, tls = rig.request(proto, sel, MENU_B[i][2] if len(MENU_B[i]) > 2 else None)
     r = w.serve(data, tls)
     return r
 
@@ -237,7 +262,9 @@ _b_handlers = "full"
 
 
 def _fresh_b(cachetime):
-    return rig.World(worlds.standard_spec(full=True), handlers=_b_handlers, cachetime=cachetime, tag="c03b")
+    spec = worlds.standard_spec(full=True)
+    spec["env.sh"] = ("exec", ENV_SH)
+    return rig.World(spec, handlers=_b_handlers, cachetime=cachetime, tag="c03b")
 
 
 def _run_history(hist, cachetime, fresh_answers):
@@ -287,7 +314,7 @@ def _shard_b(shard, seed, tier):
         if len(part.samples) < 1:
             part.sample({"history": [list(MENU_B[i]) for i in hist], "cachetime": cachetime})
         if bad:
-            key = "b|%s|cachetime=%d|%s|%s" % ("full" if _b_handlers == "full" else "plain-dir", cachetime, "->".join("%s:%s" % (MENU_B[i][0], MENU_B[i][1].decode()) for i in hist), bad[0])
+            key = "b|%s|cachetime=%d|%s|%s" % ("full" if _b_handlers == "full" else "plain-dir", cachetime, "->".join("%s:%s%s" % (MENU_B[i][0], MENU_B[i][1].decode(), ("?" + MENU_B[i][2].decode()) if len(MENU_B[i]) > 2 else "") for i in hist), bad[0])
             part.violation(key, bad[1], {"part": "b", "cachetime": cachetime, "hist": list(hist), "handlers": _b_handlers})
     return part
 
